@@ -439,12 +439,12 @@ async fn run_workload(w: &Workload, v: Variant) -> Value {
       json!({"hit_backpressure": refused > 0, "all_accepted_delivered_in_order": got == accepted})
     }
     Workload::SlowConsumer { n, rcvhwm } => {
-      // three rounds on fresh connections: the window is timing dependent, any round may show it
+      // two rounds on fresh connections: the window is timing dependent, any round may show it
       let mut all_sent = true;
       let mut in_order = true;
       let mut first_bad_any = None;
       let mut received_total = 0usize;
-      for _round in 0..3 {
+      for _round in 0..2 {
         let rx = mk(&ctx, SocketType::Pull, v, &[(o::RCVHWM, *rcvhwm)]).await;
         let ep = bound(&rx).await;
         let tx = mk(&pctx, SocketType::Push, Variant { uring: false, zerocopy: false, multishot: false, cork: false }, &[(o::SNDHWM, 1000), (o::SNDTIMEO, 5000)]).await;
@@ -617,7 +617,7 @@ fn workloads(thorough: bool, recv_size: usize, send_size: usize) -> Vec<Workload
   sizes.dedup();
   let mut w = vec![];
   // first, while the backend has seen nothing else: ordering under back-pressure is timing sensitive
-  w.push(Workload::SlowConsumer { n: if thorough { 10_000 } else { 3000 }, rcvhwm: 4 });
+  w.push(Workload::SlowConsumer { n: if thorough { 10_000 } else { 4000 }, rcvhwm: 4 });
   if thorough {
     w.push(Workload::SlowConsumer { n: 10_000, rcvhwm: 1 });
     w.push(Workload::SlowConsumer { n: 5000, rcvhwm: 64 });
@@ -748,6 +748,14 @@ fn main() {
       let mut o = run(w, *v);
       if debug {
         eprintln!("OBS w{} {} -> {:?}", wi, v.name(), o);
+      }
+      // re-ordering within one tcp connection cannot be produced by machine load or by the harness:
+      // a single observation of it is conclusive and needs no second run
+      if let (Workload::SlowConsumer { .. }, Ok(ov)) = (w, &o) {
+        if ov["_first_out_of_order"] != "None" && ov["_first_out_of_order"].is_string() {
+          violations.push(json!({"clause": "messages-delivered-out-of-order", "class": class, "detail": format!("pool [{}] workload {}: {} delivered sequence-numbered messages of one connection out of order, first at (position, sequence) {} ({} received)", pool, short, v.name(), ov["_first_out_of_order"], ov["_received"]), "witness": {"workload": wname, "variant": v.name(), "pool": pool}}));
+          continue;
+        }
       }
       // a difference only counts if it is reproducible: run the reference and the variant once more
       let differs = |o: &Result<Value, String>, r: &Value| match o {
